@@ -71,6 +71,15 @@ def mutations(path, ops=None):
             for a, b in ((' + 1', ' + 2'), (' - 1', ' - 0'), ('+= 1', '+= 2')):
                 if a in l.split('//')[0]:
                     yield i, a.strip() + '->' + b.strip(), l.replace(a, b, 1)
+    if ops is not None and 'guard' in ops:
+        # a call statement made conditional on something no analysis can evaluate: separates rules that say "X happens only here"
+        # (dominance) from rules that say "X always happens here" (must-pass-through)
+        for i, l in code:
+            s = l.strip()
+            if s.endswith(';') and not re.match(r'^(let|use|pub|return|break|continue|type|const|static|mod|extern|fn|impl|struct|enum|trait)\b', s) \
+                    and '(' in s and s.count('(') == s.count(')') and s.count('{') == s.count('}') and 'panic!' not in s and 'debug_assert' not in s:
+                ind = l[:len(l) - len(l.lstrip())]
+                yield i, 'guard', '%sif !::std::thread::panicking() { %s }' % (ind, s)
     if ops is not None and 'base' not in ops:
         return
     for i, l in code:
